@@ -41,13 +41,15 @@ def run(ctx):
             for name, src in sorted(progcheck.program_set(random.Random(ctx.seed + 17), 3).items()):
                 if name in progrun.HEAVY and not ctx.thorough:
                     continue
+                if name == "extarg3" and v != (3, 8):
+                    continue      # 65 800 flagged names: the list-based Model appends to its reference table in quadratic time
                 o = progcheck.oracle_compile(v, name, src, oracles)
                 if "pyc" in o:
                     data = bytes.fromhex(o["pyc"])
                     hl = 16 if v >= (3, 7) else 12 if v >= (3, 3) else 8
                     items.append(("prog:%d.%d:%s" % (v[0], v[1], name), o["magic"], data[hl:], v))
                     nf = bytes.fromhex(o.get("payload_unflagged", ""))
-                    if nf and nf != data[hl:]:
+                    if nf and nf != data[hl:] and name != "extarg3":
                         items.append(("prog-unflagged:%d.%d:%s" % (v[0], v[1], name), o["magic"], nf, v))
         for o in oracles.values():
             o.close()
